@@ -1,4 +1,77 @@
+/-
+C01 — Delaunay triangulations satisfy the empty-circumcircle property.
+
+Full statement (property): after any sequence of successful insertions, removals and bulk loads no
+vertex lies strictly inside the circumcircle of any inner face (exact arithmetic).
+
+What is proved here (for every state / input, no bound):
+* the executable checker the driver runs on the implementation's dumped states *is* the spec;
+* the spec's determinant condition is literally "not strictly inside the circumcircle"
+  (power of the point w.r.t. the circumcircle given by the formula of `math::circumcenter`);
+* the code's wrapper `contained_in_circumference` (T0-generated from the current source: argument
+  order and comparison) decides exactly `incircle > 0`, for any orientation of its arguments, under
+  the robust contract; the test used by `legalize_edge` is therefore the spec's test;
+* the test is symmetric w.r.t. the two sides of an edge; each Lawson flip of an illegal edge lowers
+  the lifted potential by exactly the (positive) determinant.
+`C01_partial`: that the incremental / removal / bulk algorithms re-establish the condition globally
+is NOT proved (Delaunay lemma + algorithm correctness); it is decided per run by evaluating the
+verified checker on every dumped state of the implementation (correspondence R2).
+-/
 import Spade.Spec
+import Spade.Proofs.GeomLemmas
+import Spade.Generated.Leaf
+import Spade.Examples
 namespace Spade
-theorem C01_check_iff (s : St) : decide s.GloballyDelaunay = true ↔ s.GloballyDelaunay := decide_eq_true_iff
+
+/-- checker ⇔ spec -/
+theorem C01_check_iff (s : St) : decide s.GloballyDelaunay = true ↔ s.GloballyDelaunay :=
+  decide_eq_true_iff
+
+/-- With counter-clockwise faces, the spec says: no vertex has positive power w.r.t. the
+circumcircle of any inner face, i.e. none lies strictly inside it. -/
+theorem C01_spec_is_empty_circumcircle (s : St) (hccw : s.CcwFaces) :
+    s.GloballyDelaunay ↔
+      ∀ f, f < s.nF → 0 < f → ∀ v, v < s.nV →
+        ¬ 0 < pow4 (s.A (s.fe f)) (s.B (s.fe f)) (s.C (s.fe f)) (s.P v) := by
+  unfold St.GloballyDelaunay
+  constructor
+  · intro h f hf hf0 v hv hp
+    have := (incircle_pos_iff_inside _ _ _ _ (hccw f hf hf0)).mpr hp
+    have := h f hf hf0 v hv
+    omega
+  · intro h f hf hf0 v hv
+    by_contra hn
+    have hpos : 0 < incircle (s.A (s.fe f)) (s.B (s.fe f)) (s.C (s.fe f)) (s.P v) := by omega
+    exact h f hf hf0 v hv ((incircle_pos_iff_inside _ _ _ _ (hccw f hf hf0)).mp hpos)
+
+/-- The code's in-circle wrapper (regenerated from `math.rs` on every run) decides `incircle > 0`
+of its arguments in the given order — whatever their orientation. -/
+theorem C01_contained_in_circumference_spec (v1 v2 v3 p : Pt) :
+    Generated.contained_in_circumference v1 v2 v3 p = decide (0 < incircle v1 v2 v3 p) := by
+  unfold Generated.contained_in_circumference
+  have h : robustIncircle v3 v2 v1 p = - incircle v1 v2 v3 p := by
+    unfold robustIncircle incircle; ring
+  simp only [FL.lt, h]
+  by_cases hp : 0 < incircle v1 v2 v3 p
+  · simp [hp]
+  · simp [hp]
+
+/-- The flip test of `legalize_edge` (`contained_in_circumference(v2, v1, v0, v3)` for the edge
+`v0 → v1` with left apex `v3`... right apex `v2`) is the spec's local test, from either side. -/
+theorem C01_test_symmetric (a b c d : Pt) : incircle b a d c = incircle a b c d :=
+  incircle_other_side a b c d
+
+/-- Each flip of an illegal edge lowers the potential by exactly the determinant that made it
+illegal, so a run of Lawson flips terminates. -/
+theorem C01_flip_potential (a b c d : Pt) :
+    (phi a b c + phi b a d) - (phi d c a + phi c d b) = incircle a b c d :=
+  flip_potential a b c d
+
+theorem C01_flip_decreases (a b c d : Pt) (h : 0 < incircle a b c d) :
+    phi d c a + phi c d b < phi a b c + phi b a d := by
+  have := flip_potential a b c d; omega
+
+/-- non-vacuity: a state dumped from the real implementation is counter-clockwise and Delaunay -/
+example : exFive.CcwFaces ∧ exFive.GloballyDelaunay := by decide
+
 end Spade
